@@ -387,6 +387,7 @@ impl BudgetEnforcer {
             Event::DocumentStart(_explicit) => {
                 if self.policy == EnforcingPolicy::PerDocument {
                     self.report.reset();
+                    self.defined_anchors.clear();
                 } else {
                     self.report.documents += 1;
                     if self.report.documents > self.budget.max_documents {
